@@ -5,6 +5,7 @@
    (cluster 2) is the root directory (FAT32 as formatted here).  No proofs here. *)
 From Coq Require Import NArith Bool.
 From FatVerif Require Import Model.Base Spec.Image Model.Fat Model.Format Spec.FormatSpec.
+From FatVerif Require Spec.Abs.
 Open Scope N_scope.
 
 Definition fi_fat_pos (b : fbpb) : N := fb_reserved_sectors b * fb_bytes_per_sector b.
@@ -30,3 +31,11 @@ Definition fi_written (b : fbpb) (t : fat_type) (x : N) : bool :=
   || (sp_is32 t && (fi_in (fi_fsinfo_pos b) (fb_bytes_per_sector b) x || fi_in (fi_backup_pos b) (fb_bytes_per_sector b) x))
   || fi_in (fi_fat_pos b) (fb_fats b * fi_fat_bytes b) x
   || fi_in (fi_root_pos b) (fi_root_len b t) x.
+
+(* the geometry the independent decoder (Spec/Abs.v parse_geom) must read back from the boot sector *)
+Definition geom_of (b : fbpb) : Abs.geom :=
+  {| Abs.g_bps := fb_bytes_per_sector b; Abs.g_spc := fb_sectors_per_cluster b; Abs.g_reserved := fb_reserved_sectors b;
+     Abs.g_fats := fb_fats b; Abs.g_root_entries := fb_root_entries b; Abs.g_total_sectors := sp_total_sectors b;
+     Abs.g_spf := sp_fat_size b; Abs.g_ext_flags := fb_extended_flags b; Abs.g_root_cluster := fb_root_dir_first_cluster b;
+     Abs.g_fsinfo_sector := fb_fs_info_sector b; Abs.g_backup_sector := fb_backup_boot_sector b; Abs.g_media := fb_media b |}.
+
